@@ -20,6 +20,7 @@ type inputRec struct {
 	Tag  string `json:"tag"`
 	Kind string `json:"kind"` // u8,u16,u32,u64,bool,choose,dyad
 	t    *Term
+	ts   []*Term // a block of byte inputs (verifBytes); flattened by vector()
 	V    uint64 `json:"v"`
 }
 
@@ -123,6 +124,8 @@ type Exec struct {
 	forced      map[string]int
 	forcedEx    map[string]string
 	curSite     string
+	pcVars      []*Term
+	pcVarSet    map[*Term]bool
 	params      map[string]int
 	wantSamples int
 	PathSamples []PathSample
@@ -158,13 +161,55 @@ func (e *Exec) modelSays(c *Term) (bool, bool) {
 	return v != 0, ok
 }
 
-func (e *Exec) fetchModel() {
-	ts := make([]*Term, 0, len(e.inputs))
-	for _, in := range e.inputs {
-		if in.t != nil && !in.t.IsConst() {
-			ts = append(ts, in.t)
+var termVarsCache = map[*Term][]*Term{}
+
+func termVars(t *Term) []*Term {
+	if vs, ok := termVarsCache[t]; ok {
+		return vs
+	}
+	var out []*Term
+	seen := map[*Term]bool{}
+	var walk func(x *Term)
+	walk = func(x *Term) {
+		if x == nil || seen[x] || x.Op == OpConst {
+			return
+		}
+		seen[x] = true
+		if x.Op == OpVar {
+			out = append(out, x)
+			return
+		}
+		if vs, ok := termVarsCache[x]; ok {
+			for _, v := range vs {
+				if !seen[v] {
+					seen[v] = true
+					out = append(out, v)
+				}
+			}
+			return
+		}
+		walk(x.A)
+		walk(x.B)
+		walk(x.C)
+	}
+	walk(t)
+	termVarsCache[t] = out
+	return out
+}
+
+// noteAsserted records the variables constrained by the path condition.
+func (e *Exec) noteAsserted(c *Term) {
+	for _, v := range termVars(c) {
+		if !e.pcVarSet[v] {
+			e.pcVarSet[v] = true
+			e.pcVars = append(e.pcVars, v)
 		}
 	}
+}
+
+func (e *Exec) fetchModel() {
+	// only variables that occur in the path condition are constrained; all others may take any value (0)
+	ts := e.pcVars
 	m := map[*Term]uint64{}
 	if len(ts) > 0 {
 		vs := e.s.GetValues(ts)
@@ -174,6 +219,18 @@ func (e *Exec) fetchModel() {
 	}
 	e.model = m
 	e.modelMemo = map[*Term]uint64{}
+}
+
+// modelWorthIt decides whether fetching a model (to decide one side of a branch for free) is
+// cheaper than an extra feasibility query; model construction can be expensive with many variables.
+func (e *Exec) modelWorthIt() bool {
+	s := e.s
+	if s.Gets < 10 || s.Queries < 10 {
+		return true
+	}
+	avgGet := s.GetTime.Seconds() / float64(s.Gets)
+	avgChk := s.Time.Seconds() / float64(s.Queries)
+	return avgGet < 1.5*avgChk
 }
 
 // ---------- learned facts ----------
@@ -432,6 +489,7 @@ func (e *Exec) simp(t *Term) *Term { return e.subst(t) }
 func (e *Exec) pushAssert(c *Term) {
 	e.s.Push()
 	e.s.Assert(c)
+	e.noteAsserted(c)
 	e.learn(c)
 	e.invalidateModelIfNot(c)
 }
@@ -468,7 +526,7 @@ func (e *Exec) branch(c *Term) bool {
 		return d.val != 0
 	}
 	var ft, ff string
-	if e.model == nil {
+	if e.model == nil && e.modelWorthIt() {
 		if e.s.Check() == "sat" {
 			e.fetchModel()
 		}
@@ -523,11 +581,6 @@ func (e *Exec) branch(c *Term) bool {
 		e.pushAssert(c)
 	} else {
 		e.pushAssert(Not(c))
-	}
-	if e.model == nil && ft == "sat" && ff == "sat" {
-		if e.s.Check() == "sat" {
-			e.fetchModel()
-		}
 	}
 	return take
 }
@@ -621,6 +674,7 @@ func (e *Exec) concretize(t *Term) uint64 {
 		e.s.Push()
 		c := Eq(t, BV(t.W, v))
 		e.s.Assert(c)
+		e.noteAsserted(c)
 		e.learn(c)
 		e.learnEq(t, v)
 		e.invalidateModelIfNot(c)
@@ -709,10 +763,25 @@ func (e *Exec) choose(n int) int {
 	return first
 }
 
-func (e *Exec) vector() []inputRec {
-	out := make([]inputRec, len(e.inputs))
-	var ts []*Term
+func (e *Exec) flatInputs() []inputRec {
+	var out []inputRec
 	for _, in := range e.inputs {
+		if in.ts != nil {
+			for i, t := range in.ts {
+				out = append(out, inputRec{Tag: fmt.Sprintf("%s.%d", in.Tag, i), Kind: in.Kind, t: t})
+			}
+			continue
+		}
+		out = append(out, in)
+	}
+	return out
+}
+
+func (e *Exec) vector() []inputRec {
+	inputs := e.flatInputs()
+	out := make([]inputRec, len(inputs))
+	var ts []*Term
+	for _, in := range inputs {
 		if in.t != nil && !in.t.IsConst() {
 			ts = append(ts, in.t)
 		}
@@ -722,7 +791,7 @@ func (e *Exec) vector() []inputRec {
 		vs = e.s.GetValues(ts)
 	}
 	k := 0
-	for i, in := range e.inputs {
+	for i, in := range inputs {
 		out[i] = in
 		if in.t != nil {
 			if in.t.IsConst() {
@@ -807,6 +876,7 @@ func (e *Exec) obligation(cond *Term, kind, what, site string) {
 	}
 	// continue under cond (if feasible)
 	e.s.Assert(cond)
+	e.noteAsserted(cond)
 	e.learn(cond)
 	e.invalidateModelIfNot(cond)
 	if e.model == nil {
@@ -814,7 +884,7 @@ func (e *Exec) obligation(cond *Term, kind, what, site string) {
 		if rr == "unsat" {
 			panic(pathEnd{"violated on all values: " + what})
 		}
-		if rr == "sat" {
+		if rr == "sat" && e.modelWorthIt() {
 			e.fetchModel()
 		}
 	}
@@ -838,6 +908,7 @@ func (e *Exec) assume(c *Term, label string) {
 		panic(specAbort{})
 	}
 	e.s.Assert(c)
+	e.noteAsserted(c)
 	e.learn(c)
 	if v, ok := e.modelSays(c); ok && v {
 		return
@@ -847,7 +918,7 @@ func (e *Exec) assume(c *Term, label string) {
 	if r == "unsat" {
 		panic(pathEnd{"assume infeasible"})
 	}
-	if r == "sat" {
+	if r == "sat" && e.modelWorthIt() {
 		e.fetchModel()
 	}
 }
@@ -868,6 +939,32 @@ func (e *Exec) fresh(tag, kind string, w int) *Term {
 	v := Var(name, w)
 	e.inputs = append(e.inputs, inputRec{Tag: tag, Kind: kind, t: v})
 	return v
+}
+
+var bytesCache = map[string][]*Term{}
+
+// freshBytes creates a block of n symbolic bytes (names cached across paths).
+func (e *Exec) freshBytes(tag string, n int) []*Term {
+	if e.concrete != nil {
+		ts := make([]*Term, n)
+		for i := range ts {
+			ts[i] = e.fresh(tag, "u8", 8)
+		}
+		return ts
+	}
+	e.ndCount[tag]++
+	key := fmt.Sprintf("%s!%d/%d", tag, e.ndCount[tag], n)
+	ts, ok := bytesCache[key]
+	if !ok {
+		ts = make([]*Term, n)
+		base := sanitize(tag)
+		for i := range ts {
+			ts[i] = Var(fmt.Sprintf("%s.%d!%d", base, i, e.ndCount[tag]), 8)
+		}
+		bytesCache[key] = ts
+	}
+	e.inputs = append(e.inputs, inputRec{Tag: tag, Kind: "u8", ts: ts})
+	return ts
 }
 
 func BV64orBool(w int, v uint64) *Term {
@@ -919,6 +1016,8 @@ func (e *Exec) resetPath() {
 		e.unwind = 100000
 	}
 	e.aliases = nil
+	e.pcVars = nil
+	e.pcVarSet = map[*Term]bool{}
 	e.pathReached = nil
 	e.forcedPath = nil
 	e.uniqTried = nil
